@@ -46,6 +46,8 @@ type Gen struct {
 	sigs     map[string]bool
 	branches map[string]int
 	skipped  int
+	co       *vh.Out // compose mode: the same op lines plus `searchx` lines (compose.go); nil = off
+	nx       int     // `searchx` requests after each batch
 }
 
 func caseVariant(r *vh.Rng, s string) string {
@@ -245,6 +247,9 @@ func (g *Gen) emit(op *Op) string {
 				lo := &Op{Kind: "lower", Raw: s, Low: l}
 				a, _ := g.w.Exec(lo)
 				g.o.Emit("lower", lo.Line(), a, false)
+				if g.co != nil {
+					g.co.Emit("lower", lo.Line(), a, false)
+				}
 			}
 		}
 	}
@@ -262,6 +267,9 @@ func (g *Gen) emit(op *Op) string {
 		nontrivial = ans != "-"
 	}
 	g.o.Emit(kind, op.Line(), ans, nontrivial)
+	if g.co != nil {
+		g.co.Emit(kind, op.Line(), ans, nontrivial)
+	}
 	if fail != nil && !g.sigs[fail.Sig] {
 		g.sigs[fail.Sig] = true
 		g.o.Fail(fail.Sig, fail.What, g.replayFor(op, fail))
@@ -681,6 +689,7 @@ func (g *Gen) history(shardNo, batches, nsearch int) {
 		g.countBranches(before, touched)
 		g.dumps()
 		g.searches(nsearch)
+		g.searchesX(g.nx)
 	}
 }
 
@@ -736,6 +745,20 @@ func doReplay(path string) {
 		if line == "" || strings.HasPrefix(line, "#") {
 			continue
 		}
+		if strings.HasPrefix(line, "searchx ") {
+			x, err := parseXReq(line)
+			if err != nil || w.sh == nil {
+				fmt.Fprintln(out, "bad-op")
+				continue
+			}
+			ans, fail := w.searchX(x)
+			if fail != nil {
+				ans += "   !! " + fail.What + " [" + fail.Sig + "]"
+			}
+			fmt.Fprintln(out, ans)
+			out.Flush()
+			continue
+		}
 		op, err := parseOp(line)
 		if err != nil {
 			fmt.Fprintln(out, "bad-op")
@@ -769,6 +792,7 @@ func main() {
 	shards := flag.Int("shards", 8, "number of shard histories")
 	batches := flag.Int("batches", 14, "write batches per history")
 	nsearch := flag.Int("searches", 14, "queries after each batch")
+	nx := flag.Int("searchx", 0, "compose mode: full SearchPoints requests (select, sort, offset, limit) after each batch, written with the whole history to <out>/compose/")
 	flag.Parse()
 	zerolog.SetGlobalLevel(zerolog.Disabled)
 	if *replay != "" {
@@ -782,11 +806,17 @@ func main() {
 	defer os.RemoveAll(tmp)
 	o := vh.NewOut(*dir)
 	g := &Gen{r: vh.NewRng(mixSeed(*seed)), w: NewWorld(tmp), o: o, tmp: tmp, sigs: map[string]bool{}, branches: map[string]int{}}
+	if *nx > 0 {
+		g.co, g.nx = vh.NewOut(filepath.Join(*dir, "compose")), *nx
+	}
 	for s := 0; s < *shards; s++ {
 		g.history(s, *batches, *nsearch)
 	}
 	g.w.Close()
 	side := g.sideEmptyString()
+	if g.co != nil {
+		g.co.Close(map[string]any{"rule": "distinct op lines that are write batches, non-empty bucket dumps, or searches / full requests with a non-empty answer"})
+	}
 	o.Close(map[string]any{
 		"rule":                        "distinct op lines that are write batches, non-empty bucket dumps, or searches with a non-empty answer",
 		"getOperation_branches":       g.branches,
